@@ -136,8 +136,19 @@ def check_tftt(ctx):
         qmin, qmax = t0idx + 1, nout - (ntone - t0idx) - 1
         qs = rng.integers(qmin, qmax, size=(numsc, numtr))
         kind = rng.integers(0, 3, size=(numsc, numtr))
+        # the extreme admissible positions: the (padded) toneburst starts on the first output sample / ends flush with the last one
+        q_first, q_last = t0idx, nout - ntone + t0idx
+        edge = rng.random(size=qs.shape)
+        qs = np.where(edge < 0.15, q_first, np.where(edge > 0.85, q_last, qs))
+        ctx.count("tftt:echo_at_window_edge", int(((edge < 0.15) | (edge > 0.85)).sum()))
         delays = np.where(kind == 0, t0out + (qs + rng.uniform(0.05, 0.95, size=qs.shape)) * dt, t0out + qs * dt)
-        delays = np.where(kind == 2, np.nextafter(delays, delays + rng.choice([-1, 1], size=qs.shape)), delays)
+        ulp_dir = np.where(qs == q_first, 1, rng.choice([-1, 1], size=qs.shape))   # one ulp below the first position does not fit
+        # (only when the quotient really lands on the intended sample: with a non-zero time origin rounding may move it)
+        delays = np.where(kind == 2, np.nextafter(delays, delays + ulp_dir), delays)
+        fits = np.floor((delays - t0out) / dt) - t0idx
+        bad = (fits < 0) | (fits + ntone > nout)
+        delays = np.where(bad, t0out + (np.clip(qs, q_first + 1, q_last - 1) + 0.5) * dt, delays)
+        kind = np.where(bad, 0, kind)
         if numsc == 1 and rng.random() < 0.5:
             got = model.transfer_func_to_timetraces(tf[0], delays[0], out_time, tt_time, freqs, tbf, t0idx)
         else:
